@@ -1,7 +1,7 @@
 (** Correspondence evaluator for C19: run the model on the graphs the harness
     fed to shanhu.io/g/dags and compare with what the real code returned. *)
 From Coq Require Import List NArith ZArith Bool Arith.
-From Verif Require Import Dag.Model.
+From Verif Require Import Dag.Model Gen.DagsSrc.
 Import ListNotations.
 
 Fixpoint leqb {A} (eqb : A -> A -> bool) (a b : list A) : bool :=
@@ -75,11 +75,11 @@ Definition model_obs (sh : N -> list name -> list name) (g : graph) : obs :=
   | MErr VFuel => OBad 2
   | MErr (VOk _) => OBad 4
   | MOk m =>
-      match sorted_layers m (m_lay0 m), layout_map m with
+      match sorted_layers gen_params m (m_lay0 m), layout_map gen_params m with
       | Some sl, VwOk v =>
           let ks := sort_names (keys g) in
           OOk (nedge g) (ncrit g (m_ao m)) (m_nlayer m) sl
-              (sorted_nodes m (m_lay0 m))
+              (sorted_nodes gen_params m (m_lay0 m))
               (map (fun k =>
                       let xy := aget (0, 0%Z) (v_nodes v) k in
                       mkN k (sort_names (ins g k)) (sort_names (outs g k))
